@@ -284,7 +284,7 @@ def check_doc(nodes, src, case, res):
 
 
 def plan(ctx):
-    shards = [('doc', PROFILES[i % len(PROFILES)], ctx.pick(70, 2500), i) for i in range(16)]
+    shards = [('doc', PROFILES[i % len(PROFILES)], ctx.pick(70, 1200), i) for i in range(16)]
     return [('shard_docs', shards)]
 
 
